@@ -1,5 +1,6 @@
 import Pi2.MachineThm
 import Pi2.Gen.Opcodes
+import Pi2.RustTie
 /-!
 # C05 — the checker implements the documented machine
 
@@ -120,5 +121,12 @@ example : decode ([12] ++ 26 :: [2]) = none :=          -- the truncated `Instan
   truncated_rejected [.prop1] (.instantiate [0, 0]) [26, 2] [0, 0] rfl (by simp) (by simp)
 example : step .proof ⟨[.pat (evar 0)], [], []⟩ .mp = none := type_confusion_rejected _ _ _ rfl
 example : verifyBytes [] [137, 0, 30] [] = none := by decide
+
+/-- the four syntactic judgements as written in `rust/src/lib.rs` (translated on every run) are the model's -/
+theorem rust_judgements_tied :
+    Gen.Rust.translated = true ∧
+    (∀ p e, Gen.Rust.e_fresh p e = Pat.eFresh e p) ∧ (∀ p s, Gen.Rust.s_fresh p s = Pat.sFresh s p) ∧
+    (∀ p s, Gen.Rust.positive p s = Pat.pos s p) ∧ (∀ p s, Gen.Rust.negative p s = Pat.ng s p) :=
+  ⟨RustTie.translated, RustTie.e_fresh_eq, RustTie.s_fresh_eq, RustTie.positive_eq, RustTie.negative_eq⟩
 
 end C05
